@@ -43,7 +43,10 @@ var alsoRuns = map[string][]borrow{
 	// folding and restore rely on complete state serialization and on canonical map keys in the loaded state
 	// … the log copy is compacted with DeleteRange over an inclusive range (C09.L4) and its entries round-trip (C18.F1-F3)
 	// … and the horizon follows the installed configuration (C16.V3)
-	"C02": {{prop: "C03"}, {prop: "C14", rules: []string{"M6"}}, {prop: "C09", rules: []string{"L4"}}, {prop: "C18", rules: []string{"F1", "F2", "F3"}}, {prop: "C16", rules: []string{"V3"}}},
+	"C02": {{prop: "C03"}, {prop: "C14", rules: []string{"M6"}}, {prop: "C09", rules: []string{"L4"}}, {prop: "C18", rules: []string{"F1", "F2", "F3"}}, {prop: "C16", rules: []string{"V3"}},
+		// what compaction deletes from the output stream is gone on the compacting node as on a node restored from the
+		// snapshot: the deleted batch leaves the cache too (C08.S3), else Get / GetNext keep serving it here and nowhere else
+		{prop: "C08", rules: []string{"S3"}, keyHas: "Delete of batch"}},
 	// … and hands back usable objects: every map a handler assigns into is non-nil after a load (C06.G5)
 	"C03": {{prop: "C13", rules: []string{"E6"}, keyHas: "ending another session"}, {prop: "C14", rules: []string{"M6"}}, {prop: "C02", rules: []string{"N1"}, keyHas: "live global"}, {prop: "C06", rules: []string{"G5"}}},
 	// acknowledged entries survive snapshots (C02, C03), the store honours its contract (C09 + its entry codec), and
@@ -55,12 +58,18 @@ var alsoRuns = map[string][]borrow{
 	"C04": {{prop: "C01", rules: []string{"R1", "R2", "R3", "R4"}}, {prop: "C08"}, {prop: "C01", rules: []string{"R4"}}, {prop: "C18", rules: []string{"F1"}, keyHas: "default id"}, {prop: "C02", rules: []string{"N4"}}},
 	// … and a POST is acknowledged without being proposed only where the replicated marker shows it was applied (C10.U1c)
 	"C05": {{prop: "C02"}, {prop: "C03"}, {prop: "C09"}, {prop: "C18"}, {prop: "C04"}, {prop: "C08"}, {prop: "C14", rules: []string{"M6"}},
-		{prop: "C10", rules: []string{"U1"}, keyHas: "success without proposing"},
+		{prop: "C10", rules: []string{"U1"}, keyHasAny: []string{"success without proposing", "proposal carries the tested ClientMessageId"}},
+		// "exactly once": the retry of a POST whose acknowledgement was lost is recognised only if the proposal carries the
+		// id the duplicate test compared. "after killing and restarting any node": a node must come up again — the entry
+		// that made it panic is marked only if the deferred function calls recover() itself (C07.D1)
+		{prop: "C07", rules: []string{"D1"}, keyHas: "recover()"},
 		// … and a node that has not applied the session yet says "not yet seen" (retry), never "no such session" (give up)
 		{prop: "C17", rules: []string{"Y2"}}},
 	// the state invariants that justify look-ups in C06.G3 are preserved iff C14's pairing rules hold
 	// … and sessions ended by somebody else leave the session table (C17.Y4), else their next line finds no nickname entry
-	"C06": {{prop: "C14"}, {prop: "C17", rules: []string{"Y4"}}},
+	// … and a session that ProcessMessage itself has just ended (ban, registration time-out) does not get its command run
+	// (C17.Y6): the handlers assume a session that is in the nickname index and in its channels' member lists
+	"C06": {{prop: "C14"}, {prop: "C17", rules: []string{"Y4"}}, {prop: "C17", rules: []string{"Y6"}, keyHas: "not dispatched"}},
 	// the marked entry lands in a store that honours its contract (C09, F2/F3); the duplicate-detection marker advances for a
 	// skipped entry (C10.U3); every entry, marked or not, is re-filed before it is applied or skipped and is folded by
 	// compaction, and restore rebuilds from it (C02.N1/N3/N4/N5); the marker and everything else survives a snapshot (C03)
@@ -114,7 +123,9 @@ var alsoRuns = map[string][]borrow{
 	// both components (K1c), the configured expiration round-trips
 	// "decoded identically by all readers (… restore …)": the snapshot container written by Persist is the one decodeProtobuf
 	// reads (C02.N5)
-	"C18": {{prop: "C02", rules: []string{"N5"}}},
+	// the raft log store is a writer/reader pair too: what StoreLogs / StoreLogProto write (every entry handed over, under
+	// its own index key, as 'p' + protobuf or bare JSON: C09.L1, L2, L7) is what GetLog and the bulk iterator read back
+	"C18": {{prop: "C02", rules: []string{"N5"}}, {prop: "C09", rules: []string{"L1", "L2", "L7"}, funcPrefix: "raftstore.(*LevelDBStore).Store"}},
 	// … and a session that somebody else ends is removed from the table only by the sweep, which runs for operators and
 	// services links: ending another session is therefore tied to that privilege (C13.E6), else the ended session lingers
 	"C17": {{prop: "C03", rules: []string{"K7"}}, {prop: "C03", keyHasAny: []string{"SessionExpiration", "LastActivity", "identifier literal"}},
